@@ -320,11 +320,41 @@ func genC14(g *sim.Stream, f *sim.Stream) *c14Prog {
 	}
 	nops := g.Range(3, 14)
 	for k := 0; k < nops; k++ {
-		kind := g.Intn(8)
-		if len(binds) == 0 {
+		kind := g.Intn(9)
+		if len(binds) == 0 && kind != 8 {
 			kind = 0
 		}
 		switch kind {
+		case 8: // one from-import statement that brings in two modules of a directory
+			done := false
+			for i := range mods {
+				for j := range mods {
+					di, dj := strings.LastIndexByte(mods[i].Path, '/'), strings.LastIndexByte(mods[j].Path, '/')
+					if done || i >= j || di < 0 || dj < 0 || mods[i].Path[:di] != mods[j].Path[:dj] || mods[i].Decoy || mods[j].Decoy {
+						continue
+					}
+					nalias++
+					a1, a2 := fmt.Sprintf("ga%d", nalias), fmt.Sprintf("gb%d", nalias)
+					dir := mods[i].Path[:di]
+					if g.Bool() {
+						fmt.Fprintf(&b, "from %q import (%s as %s, %s as %s)\n", dir, mods[i].last(), a1, mods[j].last(), a2)
+					} else {
+						fmt.Fprintf(&b, "from %s import %s as %s, %s as %s\n", strings.ReplaceAll(dir, "/", "."), mods[i].last(), a1, mods[j].last(), a2)
+					}
+					mm.imp(mods, i)
+					mm.imp(mods, j)
+					binds = append(binds, binding{a1, i, "module"}, binding{a2, j, "module"})
+					done = true
+				}
+			}
+			if !done {
+				i := g.Intn(len(mods))
+				nalias++
+				st, bind := importStmt(mods[i], g.Intn(5), fmt.Sprintf("al%d", nalias))
+				b.WriteString(st + "\n")
+				mm.imp(mods, i)
+				binds = append(binds, binding{bind, i, "module"})
+			}
 		case 0, 1: // import a module under some spelling
 			i := g.Intn(len(mods))
 			nalias++
